@@ -18,16 +18,17 @@ from hypothesis import strategies as st
 
 from vf.build import Builder
 from vf.common import Discard, Violation
-from vf.forms import LinGen, build_form, draw_md
+from vf.forms import LinGen, build_form, draw_md, restrict_term
 from vf.gen import Gen, Profile, TDIM, worlds
 from vf.interp import Interp, close, derivative_depth
 from vf.props.c16 import combine, form_values, same_values
 from vf.props.valuecommon import warmup  # noqa: F401
-from vf.props.valuecommon import Guard, exc_bucket, make_env, rel_err
+from vf.props.valuecommon import Guard, exc_bucket, make_env, make_two_sided, rel_err
 
 LEVEL = "exploration"
 RULE = (
-    "Hypothesis: forms of arity 1 or 2 (1-2 integrals, subdomain ids, metadata) whose test/trial functions are on a "
+    "Hypothesis: forms of arity 1 or 2 (1-2 integrals over dx/ds/dS -- on dS the arguments sit under restrictions, "
+    "jumps and averages --, subdomain ids, metadata) whose test/trial functions are on a "
     "mixed element of 2-3 sub-elements drawn from scalar/vector Lagrange, DG, RT-like and N1curl-like (also on immersed "
     "cells, where reference and physical sizes differ) or on a MixedFunctionSpace with 2-3 parts; integrands are "
     "multilinear by construction (derivatives, components, contractions with generated factors). extract_blocks is "
@@ -38,7 +39,7 @@ RULE = (
 ASSUMPTIONS = ["arguments are polynomial fields with harness-controlled coefficients; sub-space arguments created by "
                "extract_blocks are tied to the rows of the parent argument that belong to their sub-element"]
 BUDGET = {"quick": {"examples": 1600, "seconds": 75}, "thorough": {"examples": 50000, "seconds": 1500}}
-LABEL_FLOORS = {"quick": {"kind:mixed": 400, "kind:parts": 200, "arity:2": 400, "arity:1": 150, "replace:False": 100}}
+LABEL_FLOORS = {"quick": {"interior-facet:arity2": 80, "kind:mixed": 400, "kind:parts": 200, "arity:2": 400, "arity:1": 150, "replace:False": 100}}
 CASE_TIMEOUT = {"quick": 30, "thorough": 90}
 
 OPS = {"arith", "math", "index", "tensor", "compound", "deriv", "pow", "var"}
@@ -108,10 +109,22 @@ def cases(draw, tier):
         mine = terms[k::nint]
         if not mine:
             continue
+        itype = draw(st.sampled_from(["dx", "dx", "ds", "dS", "dS"]))
+        if itype == "dS":
+            # interior facets: the terms (arguments included) sit under restrictions, jumps and averages
+            mine = [restrict_term(G, t) for t in mine]
+            if arity == 2 and draw(st.booleans()):
+                # ... or test and trial parts are restricted separately, possibly to different sides
+                if kind == "mixed":
+                    nv_, nu_ = "a0", "a1"
+                else:
+                    nv_, nu_ = f"v{draw(st.integers(0, nparts - 1))}", f"u{draw(st.integers(0, nparts - 1))}"
+                mine.append(["mul", ["restr", L.term([nv_], 1), draw(st.sampled_from(["+", "-"]))],
+                             ["restr", L.term([nu_], 1), draw(st.sampled_from(["+", "-"]))]])
         e = mine[0]
         for t in mine[1:]:
             e = ["add", e, t]
-        integrals.append({"itype": draw(st.sampled_from(["dx", "dx", "ds"])), "sid": draw(st.sampled_from([None, None, 1])),
+        integrals.append({"itype": itype, "sid": draw(st.sampled_from([None, None, 1])),
                           "md": draw_md(draw), "expr": e})
     return {"world": world, "vars": G.vars, "integrals": integrals, "kind": kind, "arity": arity, "meta": meta,
             "replace_argument": draw(st.booleans()) if kind == "mixed" else True,
@@ -190,23 +203,30 @@ def check_case(case):
         rng = np.random.default_rng([int(case["env_seed"]), rep, 22])
 
         def factory(fixed):
+            # coefficient arrays are stacked (2, rows, monomials): [0] one-sided and '+' side, [1] '-' side
             def make(itype):
+                if itype == "interior_facet":
+                    envs = make_two_sided(case, rep)
+                    for k_, v_ in fixed.items():
+                        envs["+"].fixed[k_ + ":+"] = v_[0]
+                        envs["-"].fixed[k_ + ":-"] = v_[1]
+                    return Interp(envs, order=order)
                 env = make_env(case, rep, facet=(itype == "exterior_facet"))
                 I = Interp(env, order=order)
                 for k_, v_ in fixed.items():
-                    env.fixed[k_] = v_
+                    env.fixed[k_] = v_[0]
                 return I
             return make
 
         probe = Interp(make_env(case, rep), order=order)
         nmono = len(probe._monomials(None, False)[0])
         if kind == "mixed":
-            Cv = rng.uniform(-1, 1, (offs[-1], nmono))
-            Cu = rng.uniform(-1, 1, (offs[-1], nmono))
+            Cv = rng.uniform(-1, 1, (2, offs[-1], nmono))
+            Cu = rng.uniform(-1, 1, (2, offs[-1], nmono))
 
             def masked(C, i):
                 M = np.zeros_like(C)
-                M[offs[i]:offs[i + 1]] = C[offs[i]:offs[i + 1]]
+                M[:, offs[i]:offs[i + 1]] = C[:, offs[i]:offs[i + 1]]
                 return M
 
             base = {"rp:" + repr(v): Cv}
@@ -231,7 +251,7 @@ def check_case(case):
                                 continue
                             idx = i if a_.number() == 0 else j
                             src = Cv if a_.number() == 0 else Cu
-                            fx2["rp:" + repr(a_)] = src[offs[idx]:offs[idx + 1]]
+                            fx2["rp:" + repr(a_)] = src[:, offs[idx]:offs[idx + 1]]
                     got = form_values(blk, factory(fx2), None)
                 same_values(exp, got, f"block {key} (replace_argument={ra})")
                 total = combine((1, total), (1, got))
@@ -242,7 +262,7 @@ def check_case(case):
             Cs = {}
             for a_ in vs + [x for x in us if x is not None]:
                 ncomp = int(np.prod(a_.ufl_element().reference_value_shape, dtype=int))
-                Cs[a_] = rng.uniform(-1, 1, (ncomp, nmono))
+                Cs[a_] = rng.uniform(-1, 1, (2, ncomp, nmono))
             base = {"rp:" + repr(a_): C for a_, C in Cs.items()}
             F = form_values(form, factory(base), None)
             total = {}
@@ -275,6 +295,8 @@ def check_case(case):
         raise Violation(f"extract_blocks(form, i, j) raised {type(ex).__name__}: {str(ex)[:200]}", {"kind": "raised-single:" + exc_bucket(ex)})
     w = case["world"]
     labels = ["kind:" + kind, "arity:%d" % arity, "replace:%s" % ra]
+    if any(i["itype"] == "dS" for i in case["integrals"]):
+        labels.append("interior-facet:arity%d" % arity)
     if w["gdim"] > TDIM[w["cell"]]:
         labels.append("manifold")
     return {"nontrivial": nonzero_blocks >= 2, "labels": labels}
